@@ -342,6 +342,7 @@ func (r *Run) Finish(outDir string, quiet bool) int {
 			"distinct_nontrivial":    len(distinct),
 			"rule":                   "one obligation = one rule applied to one resolved construct (function, path, call site, field writer, table entry, constant); distinct = distinct rule+construct keys; every obligation is non-trivial in the sense that the rule's pattern matched a construct and a necessary condition was evaluated on it (rules that match nothing fail their floor instead of passing)",
 			"samples":                samples,
+			"obligation_list":        r.oblList(400),
 			"exhaustive_table_rules": exhaustive,
 			"rules":                  rules,
 			"functions_analysed":     nfuncs,
@@ -394,6 +395,26 @@ func keys(m map[string]bool) []string {
 		out = append(out, k)
 	}
 	sort.Strings(out)
+	return out
+}
+
+// oblList writes out every obligation (up to max; properties with thousands of table entries are truncated).
+func (r *Run) oblList(max int) []string {
+	var out []string
+	for _, o := range r.Obls {
+		if o.Status == StInfo {
+			continue
+		}
+		if len(out) >= max {
+			out = append(out, fmt.Sprintf("... %d more", len(r.Obls)-max))
+			break
+		}
+		a := ""
+		if o.Arch != "" {
+			a = " [" + o.Arch + "]"
+		}
+		out = append(out, fmt.Sprintf("%s%s %s — %s: %s", o.Status, a, o.FullKey(), o.Pos, o.Detail))
+	}
 	return out
 }
 
